@@ -28,10 +28,18 @@ import (
 )
 
 type c14gen struct {
-	r    *rand.Rand
-	mids []string
-	n    int
+	r       *rand.Rand
+	mids    []string
+	n       int
+	brittle bool // the crew has a machine whose every step fails at the store
 }
+
+// c14BrittleSpec: a machine that ends every step with a state the store cannot
+// serialise (NaN), so every request that reaches it fails with a write error.
+const c14BrittleSpec = `{"name":"brittle","nodes":{
+ "start":{"branching":{"type":"message","branches":[{"pattern":"?m","target":"rec"}]}},
+ "rec":{"action":{"interpreter":"ecmascript","source":"var bs = _.bindings; delete bs['?m']; bs.bad = 0/0; return bs;"},
+        "branching":{"branches":[{"target":"start"}]}}}}`
 
 func (g *c14gen) uid() string { g.n++; return fmt.Sprintf("u%d", g.n) }
 
@@ -44,7 +52,20 @@ func (g *c14gen) message(depth int) map[string]interface{} {
 		}
 		return g.mids[r.Intn(len(g.mids))]
 	}
-	switch r.Intn(10) {
+	c := r.Intn(10)
+	if g.brittle {
+		// no untargeted messages (they would reach the brittle machine and fail as a whole);
+		// instead some are addressed to it: those requests fail, their siblings must not care
+		if c <= 1 {
+			c = 2
+			if r.Intn(2) == 0 {
+				m["to"] = "brittle"
+				c = -1
+			}
+		}
+	}
+	switch c {
+	case -1:
 	case 0, 1:
 		// no target: every machine
 	case 2, 3, 4, 5:
@@ -157,7 +178,15 @@ func c14History(cfg fw.Config, rec *fw.Rec, idx int) {
 		}
 	}
 	sort.Strings(mids)
-	g := &c14gen{r: r, mids: mids}
+	brittle := idx%3 == 2
+	if brittle {
+		os.WriteFile(filepath.Join(specDir, "brittle.yaml"), []byte(c14BrittleSpec), 0644)
+		if err := s.AddMachine(ctx, "brittle", "brittle", "start", match.NewBindings()); err != nil {
+			rec.Inconclusive("AddMachine: " + err.Error())
+			return
+		}
+	}
+	g := &c14gen{r: r, mids: mids, brittle: brittle}
 	var history []interface{}
 	expectLog := map[string][]string{}
 	var expectEmitted, expectProcessing, expectWS []string
@@ -183,6 +212,14 @@ func c14History(cfg fw.Config, rec *fw.Rec, idx int) {
 			return
 		}
 		rec.Eval(1)
+		if mm, ok := msg.(map[string]interface{}); ok && mm["to"] == "brittle" {
+			if err == nil {
+				rec.Inconclusive("the brittle machine's write did not fail")
+				return
+			}
+			rec.Bucket("mcrew_requests_failing_at_the_store")
+			err = nil
+		}
 		if err != nil {
 			rec.Violation("C14:mcrew:process-error", err.Error(), replay)
 			return
@@ -269,6 +306,9 @@ func c14History(cfg fw.Config, rec *fw.Rec, idx int) {
 		return
 	}
 	rec.Bucket("mcrew_histories_checked")
+	if brittle {
+		rec.Bucket("mcrew_histories_with_a_failing_machine")
+	}
 	if len(expectWS) > 0 {
 		rec.Bucket("mcrew_ws_delivered_once")
 	}
@@ -323,8 +363,8 @@ func modelReplay(queue []interface{}, machines map[string]bool, expectLog map[st
 
 func init() {
 	verifRegistry["C14/mcrew"] = func(cfg fw.Config, rec *fw.Rec) {
-		rec.Rule = "mcrew Service, in-package: crews of 0-3 recorder machines (ids incl. look-alikes of service names) x histories of 1-4 submitted messages with scripted follow-ups (targets: absent, a machine id, an unknown id, timers, ws, http without a request) and timer requests whose message is routed when the timer fires; after quiescence each machine's log, the Emitted channel, the Processing channel and the websocket client channel must equal the routing model's multisets (exactly once each); channels are sized above the workload so mcrew's drop-when-full policy cannot trigger; non-trivial = history with >= 2 deliveries; distinct by (machines, history)"
-		rec.Required = []string{"mcrew_histories_checked", "mcrew_histories_with_deliveries", "mcrew_ws_delivered_once"}
+		rec.Rule = "mcrew Service, in-package: crews of 0-3 recorder machines (ids incl. look-alikes of service names) x histories of 1-4 submitted messages with scripted follow-ups (targets: absent, a machine id, an unknown id, timers, ws, http without a request) and timer requests whose message is routed when the timer fires; every third crew also has a machine whose every step ends in a state the store cannot serialise, so requests addressed to it fail - the messages emitted next to them must be processed all the same; after quiescence each machine's log, the Emitted channel, the Processing channel and the websocket client channel must equal the routing model's multisets (exactly once each); channels are sized above the workload so mcrew's drop-when-full policy cannot trigger; non-trivial = history with >= 2 deliveries; distinct by (machines, history)"
+		rec.Required = []string{"mcrew_histories_checked", "mcrew_histories_with_deliveries", "mcrew_ws_delivered_once", "mcrew_histories_with_a_failing_machine"}
 		rec.Assume = []string{"list- and object-valued targets are defined by neither code nor documentation for mcrew and are not generated", "quiescence = no Service.Process frame in the goroutine profile and no pending timer, three polls in a row"}
 		n := cfg.Pick(300, 5000)
 		fw.Parallel(4, n, func(w, i int) { c14History(cfg, rec, i) })
